@@ -30,6 +30,8 @@ pub fn shards(tier: &str) -> Vec<String> {
     v.extend(hist::shards_for(&["mtbddf"], &["n32c16t1"], p));
     v.extend(hist::shards_for(&["mtbddc"], &["n32c16t1k6", "n32c16t1"], p));
     v.extend(hist::shards_for(&["mtbddk"], &["n32c16t1k4"], p));
+    // ZBDDs through their set-family operations (results are often nodes of the manager's own tautology chain)
+    v.extend(hist::shards_for(&["zbdds"], &["n32c16t1"], p));
     // every action issued from inside a session of another manager
     v.extend(hist::shards_for(&["bdd", "zbdd", "mtbdd"], &["n32c16t1x"], p));
     v
